@@ -22,8 +22,12 @@ cache layers (plus the invocation's own writes for `findw`).
   sroot <h>                                 -> <index> <root hex> | none     GetStateRoot(h) of the model of
                                                stateroot.Module's records (Model/StateCommit/Roots.lean), which
                                                receives every batch as AddMPTBatch+UpdateCurrentLocal
+  vheight                                   -> <validated height>   the key [DataMPTAux, prefixValidated] of the model (0 = absent);
+                                               after a reset it is what the model's backward search (findValidated) found
   local                                     -> <CurrentLocalHeight> <CurrentLocalStateRoot hex>
   reset <h>                                 -> ok       ResetState(h) on the model, heights above h forgotten
+  resetrefused <h>                          -> ok       Blockchain.Reset refused the request before writing (RemoveUntraceableBlocks
+                                               below the tip): the model is untouched, the following sroot/local lines must agree
   restart                                   -> ok       Init(current height) on the model
   (in the rpc* lines <id4> may also be <mgmt id4><contract hash, 20 bytes BE>: the model then resolves the id
    from Management's record at the same height, Model/StateCommit/RpcId.lean)
@@ -120,7 +124,7 @@ def showFind : Except FindErr FindRes → String
 /-- the trie side of the module model: the C10 MPT as `AuthMap` (StateCommit.mptMap), real root
 hashes, re-opening by root hash from the tries flushed so far. -/
 def trieOps (tries : List (Bytes × Node)) : StateCommit.Roots.TrieOps Node :=
-  { M := StateCommit.mptMap, rootOf := rootHash H, reopen := fun r => (tries.lookup r).getD .empty }
+  { M := StateCommit.mptMap, rootOf := rootHash H, reopen := fun r => (tries.lookup r).getD .empty, rootOf_empty := rfl }
 
 /-- the live-side model store rebuilt from a trie (after a reset / restart). -/
 def liveOf (t : Node) : Store.Store :=
@@ -168,14 +172,19 @@ def step (s : St) (ws0 : List String) : St × String :=
       | some r => ({ s with mod := mod }, s!"{r.index} {Hex.encode r.root} w{if r.wit == [0] then 0 else 1} v{vh}")
       | none => ({ s with mod := mod }, "none")
     | _, _ => (s, "bad-op")
+  | ["vheight"] =>
+    (s, match StateCommit.Roots.kvGet s.mod.m.store StateCommit.Roots.validatedKey with
+        | some b => toString (Wire.leVal b)
+        | none => "0")
   | ["local"] => (s, s!"{s.mod.m.localHeight} {Hex.encode s.mod.m.currentLocal}")
   | ["reset", h] =>
     match h.toNat? with
     | some hn =>
-      let mod := (StateCommit.Roots.step (trieOps s.tries) s.mod (.reset hn none)).getD s.mod
+      let mod := (StateCommit.Roots.step (trieOps s.tries) s.mod (.reset hn)).getD s.mod
       let t := mod.m.mpt
       ({ s with cur := t, hist := s.hist.filter (fun e => e.1 ≤ hn), live := liveOf t, mod := mod }, "ok")
     | none => (s, "bad-op")
+  | ["resetrefused", _] => (s, "ok")      -- a refused reset: nothing changes
   | ["restart"] =>
     let mod := (StateCommit.Roots.step (trieOps s.tries) s.mod .restart).getD s.mod
     let t := mod.m.mpt
